@@ -7,7 +7,8 @@ open AbtemVerif AbtemVerif.Proto AbtemVerif.ParamEnsemble
    axes   <args>            → values listed per ensemble axis (; separated)
    unpack <args> <baseDims> → per argument `s` or `a<axis>:<expanded axes>`
    eval   <args>            → per member, row-major: `<product of weights>:<values seen, comma separated>` separated by `;`
-   block  <args> <chunks ;-separated> <block multi-index> → args of the block transform in the same encoding -/
+   block  <args> <chunks ;-separated> <block multi-index> → args of the block transform in the same encoding
+   compose <name:size|…> <applied name:size|…> → array shape and metadata labels of the composed ensemble, or err -/
 
 def arg? (s : String) : Option (Arg Int Int) :=
   if s.startsWith "s" then (parseInt? (s.drop 1).toString).map Arg.scalar
@@ -57,6 +58,18 @@ def handle : List String → String
       let picked := List.zipWith (fun (bl : List (List Int × List Int)) b => bl.getD b ([], [])) parts bi
       "ok " ++ (if a.isEmpty then "-" else "|".intercalate ((blockArgs a picked).map showArg))
     | _, _, _ => "bad-op"
+  | ["compose", named, applied] =>
+    let parse (s : String) : Option (List (String × Nat)) :=
+      if s = "-" then some [] else (s.splitOn "|").mapM fun t =>
+        match t.splitOn ":" with
+        | [n, k] => (parseNat? k).map fun k => (n, k)
+        | _ => none
+    match parse named, parse applied with
+    | some n, some a =>
+      match composeAxes n a with
+      | .ok (shape, labels) => s!"ok {showList toString shape} {showList (fun (l : String) => if l = "aberrations" then "C10" else if l = "aperture" then "semiangle" else l) labels}"
+      | .error e => s!"err {e}"
+    | _, _ => "bad-op"
   | _ => "bad-op"
 
 def main : IO Unit := serve handle
